@@ -7,6 +7,7 @@ CONSTANTS
   MaxReads = 2
   Refs <- RefsTwo
   UMIs = {1}
+  Sites = {7}
   Cap = 0
   MaxNs1 = {0, 2}
   Variant = "split_ge"
